@@ -105,7 +105,7 @@ __CPROVER_ensures(multiterm_nonresonant_ok(self, Coeff, Ei, Ej, Ek, El, Wi, Wj, 
 __CPROVER_ensures(multiterm_resonant_ok(self, Coeff, beta, Ei, Ej, Ek, El, Wi, Wj, Wk, Wl))
 //@end
 
-//@harness h_TPGFP_addMultiterm enforce=TwoParticleGFPart_addMultiterm props=C02 min_obl=300 reach=1 timeout=300
+//@harness h_TPGFP_addMultiterm enforce=TwoParticleGFPart_addMultiterm props=C02 min_obl=270 reach=1 timeout=300
 void h_TPGFP_addMultiterm(void)
 {
   struct TwoParticleGFPart *p; cplx C; double beta, Ei, Ej, Ek, El, Wi, Wj, Wk, Wl;
@@ -143,7 +143,7 @@ __CPROVER_ensures(!VERIF_thrown ==> C_SAME(__CPROVER_return_value,
                       r_value(self->ResonantTerms.ez1, self->ResonantTerms.ez2, self->ResonantTerms.ez3, 1e-8))))
 //@end
 
-//@harness h_TPGFP_call3 enforce=TwoParticleGFPart_call3 props=C02 min_obl=300 reach=1 timeout=300
+//@harness h_TPGFP_call3 enforce=TwoParticleGFPart_call3 props=C02 min_obl=372 reach=1 timeout=300
 void h_TPGFP_call3(void)
 {
   struct TwoParticleGFPart *p; cplx z1, z2, z3;
